@@ -209,3 +209,47 @@ func EnumCogroupGaps(nkeys, nshard, pattern, consumer int) *Spec {
 	}
 	return spec
 }
+
+// EnumDeep builds Cogroup(A, B) where A and B are pipelines of da and db
+// 1:1 operators (Map with different constants, every third one a Filter that
+// keeps everything) over one shared or two separate sources: deeply pipelined
+// stages, whose task names grow with the number of operators, must still be
+// distinct computations.
+func EnumDeep(nshard, nrows, da, db int, sharedSource bool) *Spec {
+	spec := &Spec{}
+	source := func(salt int) int {
+		src := Node{Op: "readerfunc", Cols: []Col{TInt, TInt}, NShard: nshard, ShardRows: make([][][]int, nshard), Script: []vgen.Chunk{{N: 64}}}
+		for i := 0; i < nrows; i++ {
+			src.ShardRows[i%nshard] = append(src.ShardRows[i%nshard], []int{i, (i*7 + salt) % 1000})
+		}
+		spec.Nodes = append(spec.Nodes, src)
+		return len(spec.Nodes) - 1
+	}
+	branch := func(src, depth, salt int) int {
+		cur := src
+		for i := 0; i < depth; i++ {
+			var n Node
+			if i%3 == 2 {
+				n = Node{Op: "filter", Fn: &Fn{M: 10, T: 10}} // hash mod 10 < 10: keeps every row
+			} else {
+				n = Node{Op: "map", Fn: &Fn{Exprs: []Expr{{K: "col", I: 0}, {K: "hash", T: TInt, M: 1000 + salt}}}}
+			}
+			n.In = []int{cur}
+			spec.Nodes = append(spec.Nodes, n)
+			cur = len(spec.Nodes) - 1
+		}
+		return cur
+	}
+	sa := source(1)
+	sb := sa
+	if !sharedSource {
+		sb = source(2)
+	}
+	a := branch(sa, da, 1)
+	b := branch(sb, db, 2)
+	spec.Nodes = append(spec.Nodes, Node{Op: "cogroup", In: []int{a, b}})
+	if err := Annotate(spec); err != nil {
+		panic(err)
+	}
+	return spec
+}
